@@ -642,7 +642,7 @@ package bbolt
 //@ F [mmap.prot] props C17 : constarg bbolt.mmap calls golang.org/x/sys/unix.Mmap arg 3 == 1
 // the freelist page id in a meta is only ever set by the commit path (and by initialisation / surgery), which is what
 // lets the opaque tree contracts promise that they leave tx.meta.freelist alone
-//@ F [setfreelist.callers] props C06 C07 : callers common.(*Meta).SetFreelist subset bbolt.(*Tx).Commit, bbolt.(*Tx).commitFreelist, bbolt.(*DB).init, command.surgeryMetaUpdateFunc, surgeon.clearFreelistInMetaPage, command.(*surgeryMetaUpdateOptions).Run, command.surgeryMetaUpdateFunc$1
+//@ F [setfreelist.callers] props C06 C07 : callers common.(*Meta).SetFreelist subset bbolt.(*Tx).Commit, bbolt.(*Tx).commitFreelist, bbolt.(*DB).init, command.surgeryMetaUpdateFunc, surgeon.clearFreelistInMetaPage, command.(*surgeryMetaUpdateOptions).Run, command.surgeryMetaUpdateFunc$1, command.updateMetaField
 //@ F [truncate.callers] props C17 C18 : callers os.(*File).Truncate subset bbolt.(*DB).grow
 //@ F [writeat.callers] props C17 C06 C01 : callers struct_writeAt.writeAt subset bbolt.(*Tx).write, bbolt.(*Tx).writeMeta, bbolt.(*DB).init
 //@ F [flock.callers] props C17 : callers bbolt.flock subset bbolt.Open
